@@ -53,6 +53,21 @@ CLAIMED["C14"] = dict(
     note="Trusted: Lean kernel; extract.py; model checked by differential; random.choice returns a member of its argument (primitive). A wrong-curve key of the right type picked at random makes signing fail (no token) - treated as outside the statement, never as success.",
     technique="Lean 4 proof (iff characterisation) + generated table + differential + end-to-end oracle",
     design="7/C14")
+CLAIMED["C03"] = dict(
+    text="Lean 4: c03_compact — under explicit primitive laws (JSON dumps/loads round trip on header objects, signatures are octet strings, sign/verify round trip per family, ECDSA r,s below 2^bits) whatever serialize_compact returns verifies with the corresponding public key under the same registry and yields exactly the original payload octets and header, for every algorithm family, header object and payload; sign_then_verify for every family incl. the fixed-width R||S codec (exact length, decode back) built on the C19 theorems; c03_detach. Everything joserfc adds (base64url framing, splitting on '.', header and key checks) is proved, only the primitives are assumed. Tie: joserfc signs -> joserfc verifies (14 algorithms x 5 serializations x header placements x payloads x key/key set/callable) with payload and header equality; joserfc signs -> Lean model verifies; Lean model signs (oracle signers) -> joserfc verifies; detach/restore.",
+    note="Trusted: Lean kernel; JwsLaws (stated structure of hypotheses) about json/pyca; model checked by differential. The JSON and RFC 7797 round trips and the key-set case are covered by the differential and the soundness/completeness theorems of C01/C07, not by a separate round-trip theorem yet.",
+    technique="Lean 4 proof under stated primitive laws + bidirectional differential",
+    design="7/C03")
+CLAIMED["C06"] = dict(
+    text="Lean 4 (JWS half): from the C01 soundness theorems — verification returns only with a key of the algorithm's key type, on exactly the algorithm's curve for ES*, an Ed curve for EdDSA, use compatible with sig and key_ops including verify (compact and every signature of JSON forms); an HS* header is accepted only with an oct key (key-confusion corollary); signing succeeds only with such a key holding private material (c06_sign_compact via the regenerated operation registry); characterisation of check_key_op; the oct-import warning fires for every input beginning with a listed prefix, list = PEM/RFC4716/OpenSSH prefixes. JWE half (A*KW/GCMKW/dir sizes, RSA >= 2048, enc use, key_ops, private material, pre-attached keys, 1PU sender keys) is decided by the implementation-side Suitable oracle. Tie: key-gate suite over (algorithm x key type/curve/size x use x key_ops x private/public) x sign/verify/encrypt/decrypt x paths, JWS verification cases through the Lean model; PEM/OpenSSH texts as oct keys; MAC-with-public-key forgeries.",
+    note="Trusted: Lean kernel; extract.py; model checked by differential; primitive kind preconditions. Only the 'succeeds only if suitable' direction is judged; refusals of suitable keys are counted, not alarmed on.",
+    technique="Lean 4 proof (corollaries of soundness) + generated tables + differential + Suitable oracle",
+    design="7/C06")
+CLAIMED["C07"] = dict(
+    text="Lean 4: c07_compact_iff — the code accepts a compact token exactly when the RFC 7515 procedure (Spec.CompactAccepts, written from the RFC text over the received octets) does, for ALL primitives, registries, keys and inputs, hence for any JSON spelling of the protected header; c07_params — the live algorithm objects' parameters (family, hash, curve, padding, MGF1 hash, PSS salt = hash length, key type) regenerated from /repo equal the RFC 7518/8037/8812 table; c07_sign_layout (signing input and segment layout), c07_ecdsa_rs (fixed-length big-endian R||S decoding to the primitive's r,s), c07_hmac_raw_key. Tie: both directions against an independent implementation (RFC parameters written out on raw primitives, keys reconstructed from the exported public JWK only), arbitrary header spellings, structural facts on produced tokens, published RFC 7515/7520/7797 vectors from corpus/.",
+    note="Trusted: Lean kernel; extract.py; the independent implementation shares the primitive library (pyca/hashlib) with joserfc, so a fault inside it common to both is invisible; parameter choice, input construction, encodings and framing are independent.",
+    technique="Lean 4 proof (refinement to an RFC-derived spec) + generated tables + bidirectional interop differential",
+    design="7/C07")
 PENDING = {}
 
 
